@@ -278,7 +278,7 @@ func (r *rp1) UnmarshalResourcePath(segments []restlicodec.Reader) (err error) {
 
 type qpAny struct{}
 
-func (q *qpAny) NewInstance() *qpAny                                    { return &qpAny{} }
+func (q *qpAny) NewInstance() *qpAny                                   { return &qpAny{} }
 func (q *qpAny) DecodeQueryParams(restlicodec.QueryParamsReader) error { return nil }
 
 type rawVal struct{ raw []byte }
